@@ -1,5 +1,6 @@
 import PMV.AstSexp
 import PMV.Spec.Layout
+import PMV.Spec.LayoutPlain
 import PMV.Generated.Prec
 import PMV.Generated.Stmt
 namespace PMV.Driver.Layout
@@ -15,13 +16,13 @@ def linesOf (l : List LT) : List (Nat × Nat) :=
   (l.foldl step [(0, 0)]).reverse
 
 /-- `layout.check <module>` → `<hyp> <d>:<semis> <d>:<semis> …`: whether the hypotheses of T02.4 / T02.5 hold for this module
-    (`okL`, every token text `textOK`), then depth and number of `;` of every line of the specified layout -/
+    (`okL`, its syntactic form `plainL`, every token text `textOK`), then depth and number of `;` of every line of the specified layout -/
 def check (args : List Sexp) : Option String := do
   match args with
   | [m] =>
     let m ← AstSexp.module? m
     let toks := moduleToks Generated.precTable Generated.stmtTable m
-    let hyp := okL Generated.precTable Generated.stmtTable m.body && toks.all textOK
+    let hyp := okL Generated.precTable Generated.stmtTable m.body && plainL Generated.precTable m.body && toks.all textOK
     let ls := linesOf (emitModule Generated.precTable Generated.stmtTable m)
     pure ((if hyp then "1" else "0") ++ " " ++ " ".intercalate (ls.map fun (d, n) => toString d ++ ":" ++ toString n))
   | _ => none
